@@ -420,7 +420,9 @@ struct Runner {
         auto b = a["box"];
         vec3 lo(b[0].get<double>(), b[1].get<double>(), b[2].get<double>());
         vec3 hi(b[3].get<double>(), b[4].get<double>(), b[5].get<double>());
-        put(a["h"], Manifold::Cube(hi - lo).Translate(lo), 0);
+        Manifold leaf = Manifold::Cube(hi - lo).Translate(lo);
+        if (a.contains("p") && a["p"].get<int>() == 1) leaf = ApplySame(leaf, "SetProps");
+        put(a["h"], leaf, 0);
       } else if (k == "Bool") {
         const Handle &x = h[a["x"].get<int>()], &y = h[a["y"].get<int>()];
         put(a["h"], x.m->Boolean(*y.m, OpOf(a["op"])), x.nops + y.nops + 1);
@@ -447,6 +449,12 @@ struct Runner {
       } else if (k == "Xf") {
         const Handle& x = h[a["x"].get<int>()];
         put(a["h"], ApplyGen(*x.m, a["g"], o.matrix), x.nops);
+      } else if (k == "XfAssign") {
+        Handle& x = h[a["x"].get<int>()];
+        *x.m = ApplyGen(*x.m, a["g"], o.matrix);
+        x.value = nextValue++;
+        x.forced = false;
+        if (o.eager) { (void)x.m->NumTri(); x.forced = true; }
       } else if (k == "Same") {
         const Handle& x = h[a["x"].get<int>()];
         const bool wasForced = x.forced;
